@@ -792,6 +792,36 @@ func runC20(c *Ctx) {
 				}
 				visit(val, 0)
 			})
+			// every element created under a type-switch arm has the kind that arm's JSON type stands for
+			allInstrs(um, func(in ssa.Instruction) {
+				mi, ok := in.(*ssa.MakeInterface)
+				if !ok {
+					return
+				}
+				n := namedOf(mi.X.Type())
+				if n == nil || (n != pn && n != pi) {
+					return
+				}
+				arm := ""
+				for _, cd := range condsAt(mi.Block()) {
+					if ex, ok := cd.V.(*ssa.Extract); ok && cd.True {
+						if ta, ok := ex.Tuple.(*ssa.TypeAssert); ok {
+							arm = types.TypeString(ta.AssertedType, nil)
+						}
+					}
+				}
+				want := map[string]*types.Named{"string": pn, "float64": pi, "int": pi, "int64": pi, "encoding/json.Number": pi}[arm]
+				switch {
+				case arm == "":
+					r4.Undecided(mi.Pos(), "ast.(*Path).UnmarshalJSON", "path element created outside the type switch", "a "+n.Obj().Name()+" is created where the JSON type of the decoded element is not known")
+				case want == nil:
+					r4.Undecided(mi.Pos(), "ast.(*Path).UnmarshalJSON", "path element created for JSON type "+arm, "unexpected decoded type")
+				case want != n:
+					r4.Fail(mi.Pos(), "ast.(*Path).UnmarshalJSON", "a JSON "+arm+" element decoded as "+n.Obj().Name(), "Path encodes names as JSON strings and indices as JSON numbers; decoding a "+arm+" into a "+n.Obj().Name()+" (for some contents) turns one kind of path element into the other: the path of an error on a field or key named like a number does not survive the JSON round trip")
+				default:
+					r4.OK("UnmarshalJSON: "+n.Obj().Name()+" created under the "+arm+" arm at "+p.Pos(mi.Pos()), "")
+				}
+			})
 			if got["string"] == "PathName" {
 				r4.OK("UnmarshalJSON: string -> PathName", "")
 			} else {
